@@ -2,10 +2,27 @@
 C15 helper lemmas, part 1: the ghost "accepted readings" history variable and the invariant that
 ties it to `_read_cache` / `_objs_read`; what `save` emits.
 -/
-import BlueskyVerif.Lemmas.BundlerFrame
+import BlueskyVerif.Lemmas.BundlerKeepsBundle
 
 namespace BlueskyVerif.Bundler
 open Generated
+
+/-- the bundle fields are untouched -/
+def KeepsBundle (s s' : BState) : Prop :=
+  s'.readCache = s.readCache ∧ s'.objsRead = s.objsRead ∧ s'.bundleName = s.bundleName ∧ s'.bundling = s.bundling
+
+theorem kb {w : World} {s s' : BState} (h : KeepsBundle.Keeps w s s') : KeepsBundle s s' := by
+  unfold KeepsBundle.Keeps KeepsBundle.proj at h
+  simp only [Prod.mk.injEq] at h
+  exact h
+
+def Op.touchesBundle (op : Op) : Bool := KeepsBundle.touches op
+
+theorem keeps_step (w : World) (s : BState) (op : Op) (h : op.touchesBundle = false) :
+    KeepsBundle s (step w s op).st := kb (KeepsBundle.keeps_step w s op h)
+
+theorem keeps_ensureCached (w : World) (s : BState) (o : Obj) (c : Bool) :
+    KeepsBundle s (ensureCached w s o c).st := kb (KeepsBundle.keeps_ensureCached w s o c)
 
 /-! ### the history variable -/
 
@@ -33,21 +50,6 @@ theorem runAcc_fst (w : World) (s : BState) (acc : List (Obj × Reading)) (ops :
 def BundleInv (s : BState) (acc : List (Obj × Reading)) : Prop :=
   s.bundling = true → s.readCache = acc.map Prod.snd ∧ s.objsRead = acc.map Prod.fst
 
-theorem keeps_saveDescriptor (w : World) (s : BState) (n : Name) (objs : List Obj) :
-    KeepsBundle s (saveDescriptor w s n objs).st := by
-  unfold saveDescriptor
-  split
-  · apply keeps_andThen
-    · exact keeps_ensureAll w _ _ false
-    · intro s'; exact keeps_prepareStream w s' n _
-  · split <;> exact KeepsBundle.refl _
-
-theorem keeps_saveEvent (s : BState) (n : Name) (rd : List (Key × Val)) : KeepsBundle s (saveEvent s n rd).st := by
-  unfold saveEvent
-  split
-  · exact KeepsBundle.refl s
-  · exact keeps_composeEvent ..
-
 theorem save_not_bundling (w : World) (s : BState) : (save w s).st.bundling = false := by
   unfold save
   split
@@ -57,10 +59,11 @@ theorem save_not_bundling (w : World) (s : BState) : (save w s).st.bundling = fa
     · split
       · rfl
       · rename_i n hn
-        have := keeps_andThen _ (saveDescriptor w { s with bundling := false, bundleName := none } n s.objsRead)
-          (fun s' => saveEvent s' n (mergeReadings s.readCache)) (keeps_saveDescriptor ..)
-          (fun s' => keeps_saveEvent ..)
-        rw [this.2.2.2]
+        have h1 := kb (KeepsBundle.keeps_andThen w _
+          (saveDescriptor w { s with bundling := false, bundleName := none } n s.objsRead)
+          (fun s' => saveEvent s' n (mergeReadings s.readCache)) (KeepsBundle.keeps_saveDescriptor ..)
+          (fun s' => KeepsBundle.keeps_saveEvent ..))
+        rw [h1.2.2.2]
 
 theorem drop_not_bundling (s : BState) : (drop s).st.bundling = false := by
   unfold drop; split <;> simp_all
@@ -113,12 +116,12 @@ theorem bundleInv_step (w : World) (s : BState) (acc : List (Obj × Reading)) (o
   by_cases ht : op.touchesBundle = false
   · have hk := keeps_step w s op ht
     have hacc : acceptedStep w s acc op = acc := by
-      cases op <;> simp [Op.touchesBundle] at ht <;> rfl
+      cases op <;> simp [Op.touchesBundle, KeepsBundle.touches] at ht <;> rfl
     rw [hacc]
     intro hb
     rw [hk.2.2.2] at hb
     rw [hk.1, hk.2.1]; exact h hb
-  · cases op <;> simp [Op.touchesBundle] at ht
+  · cases op <;> simp [Op.touchesBundle, KeepsBundle.touches] at ht
     · -- create
       rename_i n
       simp only [step, acceptedStep]
@@ -153,7 +156,7 @@ theorem bundleInv_step (w : World) (s : BState) (acc : List (Obj × Reading)) (o
     · -- drop
       intro hb; simp only [step] at hb; rw [drop_not_bundling] at hb; cases hb
     · -- rewind
-      intro hb; simp only [step, Res.pure_st] at hb; rw [rewindOp_not_bundling] at hb; cases hb
+      intro hb; simp only [step, Res.ok_st] at hb; rw [rewindOp_not_bundling] at hb; cases hb
 
 theorem bundleInv_run (w : World) (s : BState) (acc : List (Obj × Reading)) (ops : List Op)
     (h : BundleInv s acc) : BundleInv (runAcc w s acc ops).1 (runAcc w s acc ops).2 := by
